@@ -599,6 +599,36 @@ def services_part(jobs, pusher):
 PRUNE_JOBS = ("PruneCompletedDeliveries", "PruneExpiredDeliveries", "PruneCompletedMessages", "PruneDeletedSubDeliveries", "PruneDeletedSubs", "PruneDeletedTopics")
 
 
+def timers_part(own):
+    """behaviours that hinge on the implementation's own real-time timers / clock readings inside
+    one long call (a pull already waiting when a deadline passes; a job object executed again later)"""
+    def fn(ctx):
+        p = Part("real-time-timers")
+        d = os.path.join(ctx["work"], "timers")
+        rc, out = harness(["timers", "-out", d, "-reps", "1" if QUICK(ctx) else "5"], timeout=3000)
+        if rc != 0:
+            p.violation("harness-failed", "the timers run failed: " + out[-1500:], dict(log=out[-3000:]), found_input=False)
+            return p
+        info = json.load(open(os.path.join(d, "timers.json")))
+        p.evaluations = len(info["results"])
+        p.nontrivial = len(info["results"])
+        p.traces = len(info["results"])
+        p.samples = [dict(scenario=r["scenario"], wall_ms=r["wall_ms"]) for r in info["results"][:5]]
+        seen = set()
+        for r in info["results"]:
+            for pr in r.get("problems") or []:
+                if pr["key"] in own and pr["key"] not in seen:
+                    seen.add(pr["key"])
+                    p.violation(pr["key"], "scenario %s: %s" % (r["scenario"], pr["detail"]), dict(kind="timers", scenario=r["scenario"], problem=pr))
+        return p
+    return fn
+
+
+TIMERS_C04 = ("lease-timer-missed", "lease-violated", "attempt-number")
+TIMERS_C14 = ("delivered-after-retention", "delay-timer-missed", "delivered-before-delay")
+TIMERS_C15 = ("reused-job-misses-rows",)
+
+
 def part_fetch_diff(ctx):
     """the byte budget of one fetch (GetSubscriptionMessages) against Streamer.fetch"""
     p = Part("fetch-byte-budget")
@@ -757,7 +787,7 @@ def claim_c02(kind, mm):
     k = kind.split(":")[0]
     # a delivery that should not exist (wrong filter / topic / subscription) is a C02 matter at
     # the step that creates it: a later pull merely hands it out
-    return (k == "Pull" and "MResp" in mm) or "MMsgs" in mm or (k == "Publish" and "MResp" in mm) or "unexpected-delivery" in mm or "d.msg" in mm or "d.sub" in mm
+    return (k == "Pull" and "MResp" in mm) or "MMsgs" in mm or (k == "Publish" and "MResp" in mm) or "unexpected-delivery" in mm or "d.msg" in mm or "d.sub" in mm or "other-subscription" in mm
 
 
 def claim_c04(kind, mm):
@@ -779,7 +809,16 @@ def claim_c14(kind, mm):
         "d.expires" in mm or "s.expires" in mm      # retention / expiry deadlines written by any step (seek revival included)
 
 
+def claim_c08e(kind, mm, st):
+    # a filter that does not parse is rejected and never stored; one that parses is stored as given
+    k = kind.split(":")[0]
+    q = (st.get("op") or {}).get("Sub") or {}
+    return k in ("CreateSub", "UpdateSub") and bool(q.get("Filter")) and ("MResp" in mm or "s.filter" in mm or "s.row" in mm)
+
+
 def claim_c17(kind, mm):
+    if "missing-delivery" in mm or "unexpected-delivery" in mm:
+        return True      # what was configured (filter) is what is enforced
     return kind.split(":")[0] in ("CreateSub", "GetSub", "UpdateSub", "ListSubs", "CreateTopic", "GetTopic", "UpdateTopic", "ModifyPush", "ListTopics") and \
         any(t in mm for t in ("MResp", "MSubs", "MTopics"))
 
@@ -838,7 +877,8 @@ CHECKS = {
         assumptions=BUS_ASSUME + ["payloads are compared by JSON value (the code stores the compacted, HTML-escaped form)"]),
     "C04": dict(
         props=["C04", "C04backoff"],
-        parts=[engine_part("delivery", 32, 600, 45, claim_c04, ["redelivery", "modack_effective", "nack_rescheduled", "pull_nonempty"]), part_backoff],
+        parts=[engine_part("delivery", 32, 600, 45, claim_c04, ["redelivery", "modack_effective", "nack_rescheduled", "pull_nonempty"]), part_backoff,
+               timers_part(TIMERS_C04)],
         rule="engine profile delivery (retry policies absent/min/max/both from 200 ms to 100 s, clock jumps to lease deadline -/+ margin) + grid of NextDelayFor over policies x attempts; "
              "non-trivial = redeliveries, effective deadline changes, nacks",
         assumptions=BUS_ASSUME + [T_FLOAT, "concurrent pullers: interleavings are at transaction granularity (serialisable database), covered by the history theorems; not exhibited on the code here"]),
@@ -877,7 +917,7 @@ CHECKS = {
     "C14": dict(
         props=["C14"],
         parts=[engine_part("delivery", 32, 600, 45, claim_c14, ["job_effective:ExpireSubs", "job_effective:PruneExpiredDeliveries", "pull_empty", "pull_nonempty"]),
-               services_part(("ExpireSubs", "PruneExpiredDeliveries"), False)],
+               services_part(("ExpireSubs", "PruneExpiredDeliveries"), False), timers_part(TIMERS_C14)],
         rule="engine profile delivery: retention 20 s .. 1 h and default, ttl 45 s .. 24 h and default, injected delays 0/5/40 s; the clock jumps to each lease / retention / subscription "
              "deadline -1.5 s or +1.5 s ('clearly before or clearly after'); steps whose call spans a deadline are skipped and counted; owned projection: expiry sweep, pulls (heartbeat), "
              "publish (deadlines of new deliveries), SetDelay, expired-delivery prune",
@@ -900,7 +940,7 @@ CHECKS = {
         assumptions=["partial: the handler model covers the validation logic; the enumeration is pairwise, not the full cross product"]),
     "C15": dict(
         props=["C15"],
-        parts=[part_c15_meta, services_part(PRUNE_JOBS, False), engine_part("prune", 32, 600, 45, claim_c15,
+        parts=[part_c15_meta, services_part(PRUNE_JOBS, False), timers_part(TIMERS_C15), engine_part("prune", 32, 600, 45, claim_c15,
                                           ["job_effective:PruneCompletedDeliveries", "job_effective:PruneExpiredDeliveries", "job_effective:PruneCompletedMessages",
                                            "job_effective:PruneDeletedSubDeliveries", "job_effective:PruneDeletedSubs", "job_effective:PruneDeletedTopics"])],
         rule="(1) metamorphic pairs on the real code: the same generated client history (publish / pull / ack / nack / modack / purge-seek / snapshots / deletes / expiry and dead-letter sweeps / "
@@ -979,7 +1019,7 @@ CHECKS = {
         assumptions=["Unicode letter/digit classification only for the code points of Filter/Tables.v", "documented reading of != : NOT (=)"]),
     "C08": dict(
         props=["C08"],
-        parts=[part_filter_c08],
+        parts=[part_filter_c08, engine_part("config", 32, 600, 45, claim_c08e, ["publish_ok"])],
         rule="same inputs as C07: accept/reject + AST equality with the model, AsFilter text equality, and re-parse to the same AST; watchdog for hangs, recover for panics",
         assumptions=["text/scanner and strconv are modelled (Lex.v, Print.v), tied by this differential test", "never-crash/never-hang of the Go parser is checked on the generated inputs, not proved"]),
 }
